@@ -233,7 +233,7 @@ func ValueText(v interface{}) string {
 	case float64:
 		return strings.Replace(fmt.Sprintf("%g", tv), "e+", "e", 1)
 	case string:
-		return fmt.Sprintf("%q", tv)
+		return GQLQuote(tv)
 	case EnumLit:
 		return string(tv)
 	case VarRef:
@@ -393,4 +393,36 @@ func (d *Doc) Size() int {
 	n := 0
 	d.Walk(func(set *[]*Sel) { n += len(*set) })
 	return n
+}
+
+// GQLQuote renders a string as a GraphQL string literal using only the escapes the GraphQL grammar defines.
+func GQLQuote(s string) string {
+	var b strings.Builder
+	b.WriteByte('"')
+	for _, r := range s {
+		switch r {
+		case '"':
+			b.WriteString(`\"`)
+		case '\\':
+			b.WriteString(`\\`)
+		case '\n':
+			b.WriteString(`\n`)
+		case '\r':
+			b.WriteString(`\r`)
+		case '\t':
+			b.WriteString(`\t`)
+		case '\b':
+			b.WriteString(`\b`)
+		case '\f':
+			b.WriteString(`\f`)
+		default:
+			if r < 0x20 {
+				fmt.Fprintf(&b, `\u%04x`, r)
+			} else {
+				b.WriteRune(r)
+			}
+		}
+	}
+	b.WriteByte('"')
+	return b.String()
 }
